@@ -10,7 +10,16 @@ import YaegiVerif.Model.Unwind
      F06-4 (4d07249)  panicDeferrable false → true               _panic goes through genBuiltinDeferWrapper
      F06-2 (2e388d6)  exitSteps [lock, assignRecovered, runDeferred, ifRecovered, unlock]
                         → [lock, assignRecovered, unlock, runDeferred, lock, ifRecovered, unlock]
-   Fingerprints changed by these four: `_panic` (F06-3, F06-4), `runCfg: deferred function` (F07, F06-2);
+     eef6ac5          spreadCall / spreadBin (new facts) true        the defer branches of call / callBin keep deferCallSlice(callee)
+                                                                 when the deferred call is written with an ellipsis (`defer f(xs...)`)
+     8600fa9          (no fact changes)                          runDeferred calls callVariadic(val[0], val[1:]) — v.Call(in) except for
+                                                                 the nil slice of a variadic function called without variadic arguments;
+                                                                 the extractor checks the exact shape of both
+     3081633          (no fact changes)                          genFunctionWrapper binds the method receiver when the wrapper is created
+                                                                 (the receiver of `defer t.M()` is the one of the defer statement now)
+   Fingerprints changed by the last three: `runDeferred` (8600fa9), `call: defer branch`, `callBin: defer clause` (eef6ac5),
+   `genFunctionWrapper` (3081633); `callVariadic` and `deferCallSlice` are new rows.
+   Fingerprints changed by the four repairs of round 2: `_panic` (F06-3, F06-4), `runCfg: deferred function` (F07, F06-2);
    `runDeferred` and `getFunc` are new entries of the table. -/
 namespace YaegiVerif.Expected.C06
 open YaegiVerif.Unwind
@@ -22,6 +31,8 @@ def facts : UnwindFacts :=
     argsByRefCall := false,
     argsByRefBin := false,
     argsByRefBuiltin := false,
+    spreadCall := true,
+    spreadBin := true,
     exitSteps := [.lock, .assignRecovered, .unlock, .runDeferred, .lock, .ifRecovered, .unlock],
     ifSteps := [.log, .unlock, .repanic],
     deferredProtected := true,
@@ -48,15 +59,17 @@ def sourceHashes : List (String × String) :=
   [("_recover", "8cc0949f8735f125"),
    ("_panic", "479ec3cbe4f915a7"),
    ("genBuiltinDeferWrapper", "a752ad4945ff5fce"),
-   ("genFunctionWrapper", "2865f1c325015a31"),
+   ("genFunctionWrapper", "d3025d79ab731dcf"),
    ("copyDeferArg", "d8586ba1ea695e54"),
-   ("runDeferred", "efa2b3723efe5dd8"),
+   ("runDeferred", "3744dc350d781dfc"),
+   ("callVariadic", "a136ff7434f20d7e"),
+   ("deferCallSlice", "8195ae3a302030b3"),
    ("getFunc", "e1777a5459c1a52e"),
    ("Interpreter.Execute", "eaf1129b747c09aa"),
    ("newFrame", "da1db819d5067f56"),
    ("frame.clone", "ccd71f62c6588b0a"),
    ("runCfg: deferred function", "61a77e83b081a972"),
-   ("call: defer branch", "6c7fc287e47bcb7e"),
-   ("callBin: defer clause", "7dd895ce205f05db")]
+   ("call: defer branch", "e4bca2242cb1b6ba"),
+   ("callBin: defer clause", "4756311ea624d773")]
 
 end YaegiVerif.Expected.C06
